@@ -19,7 +19,8 @@ import impl_model as im
 from props import c04
 
 THEOREMS = ['C19_refine_failure_restores', 'C19_refine_failed_iff', 'C19_refine_ins_is_model', 'C19_refine_success_reloads', 'C19_refine_example',
-            'C19_refine_crash_safe', 'C19_refine_trace_ends', 'C19_crash_example']
+            'C19_refine_crash_safe', 'C19_refine_trace_ends', 'C19_crash_example', 'C19_refine_b_backup_is_refine',
+            'C19_refine_nobackup_failure_restores_nothing', 'C19_refine_failure_keeps_model', 'C19_nobackup_example']
 IMPORTS = 'From SX Require Import Base.Prelude Base.Str Model.Refine.\n'
 
 FAKE = r'''#!/bin/sh
@@ -91,6 +92,10 @@ SAYS = ['', '', ' TITL M\udcfcller in P-1   (a byte that is not UTF-8, as SHELXL
         ' ** MERG code changed to 0 **', ' ** Bond(s) to C1 ignored **', ' wR2 = 0.1 before cycle 1 for 2000 data', ' +  m   finished at 12:00:00   Total elapsed time: 1.0 secs  +']
 
 
+def common_ascii(s):
+    return all(32 <= ord(c) < 127 or c == '\n' for c in s)
+
+
 def run_refine(tmp, text, newtext, mode, cycles, keep=False, stem='m', lst='none', block_saves=False, say='', from_ins=False, backup=True, debug=False, then=None):
     if not keep:
         for f in os.listdir(tmp):
@@ -135,6 +140,11 @@ def run_refine(tmp, text, newtext, mode, cycles, keep=False, stem='m', lst='none
                 res['raised'] = type(e).__name__ + ': ' + str(e)
             # the object after the run, before anything else happens to it
             res['acta_in_object'] = shx.acta is not None
+            res['pre_lines'] = pre_lines
+            try:
+                res['object_text'] = im.write_text(shx) if res['raised'] == 'SystemExit' else None
+            except Exception as e:
+                res['object_text'] = 'write raised %s' % type(e).__name__
             res['object_lines'] = [str(x) for i, x in enumerate(shx._reslist) if i not in shx.delete_on_write and str(x) != '']
             if then is not None:
                 # a second run with the same object (the first one may have failed)
@@ -244,6 +254,7 @@ def run(ctx):
     ev = 0
     tmp = tempfile.mkdtemp(prefix='verif-c19-')
     coq_cases = []
+    nb_cases, mem_cases = [], []
     hist = {}
     try:
         os.mkdir(os.path.join(tmp, 'bin'))
@@ -267,6 +278,8 @@ def run(ctx):
                 cycles = rng.choice([None, 0, 4, 12])
                 stem = STEMS[(k + MODES.index(mode)) % len(STEMS)]
                 lst = rng.choice(sorted(LST))
+                if mode == 'ok':
+                    lst = sorted(LST)[k % len(LST)]      # every shape of listing meets a successful run
                 if mode == 'ok_lst':
                     lst = 'none'        # this behaviour writes its own listing
                 blocked = rng.random() < 0.2       # the history directory shxsaves cannot be created (a file of that name exists)
@@ -372,6 +385,8 @@ def run(ctx):
                     r2 = run_refine(tmp, after_first, newer, mode, 2, keep=True, backup=False)
                     ev += 1
                     hist['backup off'] = hist.get('backup off', 0) + 1
+                    nb_cases.append((mode, 'new' if r2['res'] == newer else 'empty' if r2['res'] == '' else 'none' if r2['res'] is None else 'first' if r2['res'] == after_first
+                                     else 'older' if r2['res'] == text else 'other'))
                     if r2['res'] == text:
                         common.add_violation(ctx, 'a failed run without backup (%s) put the backup of an earlier run over the .res file: the result of the run in between is lost' % mode,
                                              {'text': text, 'mode': 'ok, then %s with backup_before=False' % mode}, 'the .res as SHELXL left it, or the result of the first run',
@@ -386,6 +401,10 @@ def run(ctx):
                     case_ = {'text': text, 'mode': mode + ', then ok (same object)'}
                     if r['raised'] != 'SystemExit':
                         continue
+                    if isinstance(r.get('object_text'), str) and r.get('seen_ins') is not None and common_ascii(r['object_text']) and common_ascii(r['seen_ins']):
+                        acta_line = next((l for l in r['pre_lines'] if l.upper().startswith('ACTA')), None)
+                        if acta_line is not None and '\n' not in acta_line:
+                            mem_cases.append((acta_line, [l for l in r['seen_ins'].split('\n') if l.strip()], [l for l in r['object_text'].split('\n') if l.strip()]))
                     if not r['acta_in_object'] or not any(l.upper().startswith('ACTA') for l in r['object_lines']):
                         common.add_violation(ctx, 'after a failed run the model in memory has lost its ACTA instruction', case_, 'ACTA in the object', r['object_lines'][:12])
                         break
@@ -444,7 +463,33 @@ def run(ctx):
             c = coq_cases[bad[0]]
             ctx.broken.append('correspondence: Model/Refine.v and Shelxfile.refine() disagree for the scripted behaviour %r (raised=%r, res restored=%r, backup left=%r)' % (
                 c[2], c[3]['raised'], c[3]['res'] == c[0], c[3]['bak'] is not None))
-    ctx.cov['evaluations'] = ev + len(terms)
+    # backup off: the model (refine_b false) leaves the files as SHELXL left them, whatever backup file lies around
+    if nb_cases:
+        left = {'fail_code': 'Some new2', 'empty': 'Some []', 'missing': 'None'}
+        t2 = []
+        for mode, tag in nb_cases:
+            t2.append('let first := lit "RESULT-OF-THE-FIRST-RUN" in let new2 := lit "RESULT-OF-THE-SECOND-RUN" in '
+                      'let shelxl := fun g : fs => (3%%Z, upd_fs g FRes (%s)) in '
+                      'let f0 : fs := fun n => match n with FRes => Some first | FBak => Some (lit "OLDER-MODEL") | _ => None end in '
+                      'let r := refine_b shelxl (fun s => [s]) (fun l => concat l) (fun _ => false) (fun _ => false) (fun _ l => l) false None [lit "M"] f0 in '
+                      'let tag := match snd (fst (fst r)) FRes with None => 0%%nat | Some s => if list_eq_dec Ascii.ascii_dec s new2 then 1%%nat else if list_eq_dec Ascii.ascii_dec s [] then 2%%nat '
+                      'else if list_eq_dec Ascii.ascii_dec s first then 3%%nat else 4%%nat end in Nat.eqb tag %d%%nat'
+                      % (left[mode], {'none': 0, 'new': 1, 'empty': 2, 'first': 3, 'older': 4, 'other': 5}[tag]))
+        res2 = common.coq_eval(ctx, 'c19nb', IMPORTS, '', ['bad_indices (fun b : bool => b) %s' % clist(t2)])
+        for b_ in common.parse_nat_list(res2[0])[:2]:
+            ctx.broken.append('correspondence: Model/Refine.v refine_b (backup off) and Shelxfile.refine(backup_before=False) disagree on the .res after a failed run: %r' % (nb_cases[b_],))
+    # the model in memory after a failed run: the lines handed to SHELXL with the ACTA line back behind UNIT
+    if mem_cases:
+        defs3, t3 = [], []
+        for i_, (acta_line, ins_lines, obj_lines) in enumerate(mem_cases[:12]):
+            defs3.append('Definition a%d : str := lit %s.\nDefinition i%d : list str := %s.\nDefinition o%d : list str := %s.' % (
+                i_, cstr(acta_line), i_, clist(['lit ' + cstr(l) for l in ins_lines]), i_, clist(['lit ' + cstr(l) for l in obj_lines])))
+            t3.append('if list_eq_dec (list_eq_dec Ascii.ascii_dec) (insert_after_unit is_unit_s a%d i%d) o%d then true else false' % (i_, i_, i_))
+        pre3 = 'Definition is_unit_s (x : str) : bool := if list_eq_dec Ascii.ascii_dec (upper (firstn 4 x)) (lit "UNIT") then true else false.\n'
+        res3 = common.coq_eval(ctx, 'c19mem', IMPORTS, pre3 + '\n'.join(defs3), ['bad_indices (fun b : bool => b) %s' % clist(t3)])
+        for b_ in common.parse_nat_list(res3[0])[:2]:
+            ctx.broken.append('correspondence: the model in memory after a failed run is not the instruction file with ACTA behind UNIT (Model/Refine.v memory_after_failure): ACTA line %r' % mem_cases[b_][0])
+    ctx.cov['evaluations'] = ev + len(terms) + len(nb_cases) + len(mem_cases[:12])
     ctx.cov['distinct_nontrivial'] = ev
     ctx.cov['rule'] = ('generator files with UNIT, optional ACTA, L.S. or CGLS x 10 scripted behaviours of the shelxl stand-in (success with / without .lst, non-zero exit with or '
                        'without a new result, empty, 4-byte and missing result file with exit 0 or 2, garbage with exit 1, killed by a signal) x requested cycles none / 0 / 4 / 12')
